@@ -224,6 +224,8 @@ def nontrivial(c):
     if c['op'] == 'mode':
         flat = [v for row in c['mask'] for v in row]
         return c['j'] >= 4 and any(flat) and len(flat) > 1
+    if c['op'] in ('gram', 'bound'):
+        return True
     if c['op'] == 'coords':
         m = np.asarray(c['mask']) != 0
         r, cc = m.shape
@@ -326,9 +328,35 @@ def run_impl(c):
             res['zj_raw'] = np.asarray(lentil.zernike(mask, j, normalize=False), dtype=float).tolist()
             res['mask_changed'] = not np.array_equal(mask, keep)
             return res
+        if c['op'] == 'gram':
+            return {'gram_entry': gram_entry(lentil, c['j'], c['j2'], *c['nodes'])}
+        if c['op'] == 'bound':
+            z = lentil.zernike(np.ones((1, 1)), c['j'], normalize=False, rho=np.full((1, 1), float(c['rho'])),
+                               theta=np.full((1, 1), float(c['theta'])))
+            return {'abs_value': float(abs(np.asarray(z, dtype=float)[0, 0]))}
     except Exception as e:
         return {'err': type(e).__name__}
     raise ValueError(c['op'])
+
+
+def quad_nodes(nr_, nt):
+    """exact quadrature for polynomials * trigonometric polynomials on the unit disk: Gauss-Legendre in rho
+    (weight rho), uniform in theta; weights normalised by pi"""
+    x, w = np.polynomial.legendre.leggauss(nr_)
+    rho1 = 0.5 * (x + 1)
+    w1 = 0.5 * w * rho1
+    th1 = 2 * np.pi * np.arange(nt) / nt
+    rho, theta = np.meshgrid(rho1, th1, indexing='ij')
+    wt = np.outer(w1, np.full(nt, 2 * np.pi / nt)) / np.pi
+    return rho, theta, wt
+
+
+def gram_entry(lentil, j, j2, nr_, nt):
+    rho, theta, wt = quad_nodes(nr_, nt)
+    mask = np.ones(rho.shape)
+    a = np.asarray(lentil.zernike(mask, j, rho=rho, theta=theta), dtype=float)
+    b = np.asarray(lentil.zernike(mask, j2, rho=rho, theta=theta), dtype=float)
+    return float(np.sum(a * b * wt))
 
 
 # ------------------------------------------------------------------ comparison with the model
@@ -523,6 +551,18 @@ def oracle(c, impl):
         if not np.all(np.abs(raw * N - zj) <= 1e-12 * (1 + np.abs(zj))):
             return f'normalize=True is not normalize=False times sqrt({"n+1" if m == 0 else "2(n+1)"}) for j={c["j"]}'
         return None
+    if c['op'] == 'gram':
+        if 'err' in impl:
+            return f'zernike raised {impl["err"]}'
+        e = 1.0 if c['j'] == c['j2'] else 0.0
+        g = impl['gram_entry']
+        return None if abs(g - e) <= 1e-8 else (f'(1/pi) integral of Z_{c["j"]} Z_{c["j2"]} over the unit disk = {g!r} '
+                                                f'(exact quadrature nodes), expected {e}')
+    if c['op'] == 'bound':
+        if 'err' in impl:
+            return f'zernike raised {impl["err"]}'
+        return None if impl['abs_value'] <= 1 + 1e-7 else (f'|Z_{c["j"]}| = {impl["abs_value"]!r} > 1 without normalisation at '
+                                                            f'rho={c["rho"]!r}, theta={c["theta"]!r}')
     return None
 
 
@@ -535,12 +575,7 @@ def extra(tier, rng):
     report = {}
     # (a) orthonormality by exact quadrature on caller-supplied nodes: Gauss-Legendre in rho (weight rho), uniform in theta
     nr_, nt = 48, 96
-    x, w = np.polynomial.legendre.leggauss(nr_)
-    rho1 = 0.5 * (x + 1)
-    w1 = 0.5 * w * rho1
-    th1 = 2 * np.pi * np.arange(nt) / nt
-    rho, theta = np.meshgrid(rho1, th1, indexing='ij')
-    wt = np.outer(w1, np.full(nt, 2 * np.pi / nt)) / np.pi
+    rho, theta, wt = quad_nodes(nr_, nt)
     mask = np.ones(rho.shape)
     B = np.array([np.asarray(lentil.zernike(mask, j, rho=rho, theta=theta), dtype=float).ravel() for j in range(1, jmax + 1)])
     G = (B * wt.ravel()) @ B.T
